@@ -24,7 +24,7 @@ def CycWF (s : Sys) : Prop :=
   ∀ cs, s.cyc = some cs → (cs.phase = .atRx2 ∨ cs.phase = .atReport) → cs.todo = []
 
 structure ChanInv (s : Sys) : Prop where
-  cons : ∀ w, wsum w s.g.accepted = s.flow w + s.g.out w
+  cons : ∀ w, Additive w → wsum w s.g.accepted = s.flow w + s.g.out w
   sig : ∀ e ∈ s.threads, ∀ c ∈ e.2.pending, c.isSignal = true
   wf : CycWF s
   lost : ∀ c ∈ s.g.lostAtExit, c.isSignal = true
@@ -63,12 +63,12 @@ theorem Step.trans {a b c : Sys} (h1 : Step a b) (h2 : Step b c) : Step a c :=
 
 /-- a change that touches neither the channels nor the collector nor the history -/
 theorem Step.of_fields {s s' : Sys} (h1 : s'.cyc = s.cyc) (h2 : s'.rxs = s.rxs) (h3 : s'.threads = s.threads)
-    (h4 : s'.deferred = s.deferred) (h5 : s'.g = s.g) (h6 : s'.coll = s.coll) : Step s s' := by
+    (h4 : s'.deferred = s.deferred) (h5 : s'.g = s.g) (h6 : s'.coll = s.coll) (h7 : s'.carried = s.carried) : Step s s' := by
   refine ⟨fun h => ⟨?_, ?_, ?_, ?_⟩, h6, by rw [h5], by rw [h5], by rw [h5]⟩
-  · intro w
-    have := h.cons w
+  · intro w hw
+    have := h.cons w hw
     unfold Sys.flow at this ⊢
-    rw [h1, h2, h3, h4, h5]
+    rw [h1, h2, h3, h4, h5, h7]
     exact this
   · rw [h3]; exact h.sig
   · intro cs hcs
@@ -78,9 +78,9 @@ theorem Step.of_fields {s s' : Sys} (h1 : s'.cyc = s.cyc) (h2 : s'.rxs = s.rxs) 
 
 theorem Step.setTh {s : Sys} (t : Nat) (th' : Th) (h : th'.pending = (s.th t).pending) : Step s (s.setTh t th') := by
   refine ⟨fun hc => ⟨?_, ?_, hc.wf, hc.lost⟩, rfl, rfl, rfl, rfl⟩
-  · intro w
+  · intro w hw
     rw [Sys.setTh_flow_same w s t th' h]
-    exact hc.cons w
+    exact hc.cons w hw
   · intro e he
     rcases mem_natSet he with he | rfl
     · exact hc.sig e he
@@ -90,19 +90,19 @@ theorem Step.setTh {s : Sys} (t : Nat) (th' : Th) (h : th'.pending = (s.th t).pe
 
 theorem Step.putCtr {s : Sys} (t : Nat) (c : Ctr) : Step s (s.putCtr t c) := by
   unfold Sys.putCtr
-  exact (Step.setTh (s := s) t { s.th t with suffix := c.suffix } rfl).trans (Step.of_fields rfl rfl rfl rfl rfl rfl)
+  exact (Step.setTh (s := s) t { s.th t with suffix := c.suffix } rfl).trans (Step.of_fields rfl rfl rfl rfl rfl rfl rfl)
 
 theorem Step.withSpans {s : Sys} (x : List (String × SpanVal)) : Step s { s with spans := x } :=
-  Step.of_fields rfl rfl rfl rfl rfl rfl
+  Step.of_fields rfl rfl rfl rfl rfl rfl rfl
 theorem Step.withLspans {s : Sys} (x : List (String × LocalSpansVal)) : Step s { s with lspans := x } :=
-  Step.of_fields rfl rfl rfl rfl rfl rfl
+  Step.of_fields rfl rfl rfl rfl rfl rfl rfl
 theorem Step.withAdapters {s : Sys} (x : List (String × Adapter)) : Step s { s with adapters := x } :=
-  Step.of_fields rfl rfl rfl rfl rfl rfl
+  Step.of_fields rfl rfl rfl rfl rfl rfl rfl
 theorem Step.withSpansAdapters {s : Sys} (x : List (String × SpanVal)) (y : List (String × Adapter)) :
     Step s { s with spans := x, adapters := y } :=
-  Step.of_fields rfl rfl rfl rfl rfl rfl
+  Step.of_fields rfl rfl rfl rfl rfl rfl rfl
 theorem Step.withNextCollect {s : Sys} (n : Nat) : Step s { s with nextCollect := n } :=
-  Step.of_fields rfl rfl rfl rfl rfl rfl
+  Step.of_fields rfl rfl rfl rfl rfl rfl rfl
 
 /-! ### `register`, `setRing` and the drain's bookkeeping -/
 
@@ -177,17 +177,17 @@ theorem Step.withG_side {s : Sys} (g : Ghost) (h1 : g.accepted = s.g.accepted) (
     (h3 : g.discarded = s.g.discarded) (h4 : g.lostAtExit = s.g.lostAtExit) (h5 : g.reported = s.g.reported) :
     Step s (s.withG g) := by
   refine ⟨fun h => ⟨?_, h.sig, h.wf, by rw [Sys.withG_g, h4]; exact h.lost⟩, rfl, h2, h5, h3⟩
-  intro w
-  have := h.cons w
+  intro w hw
+  have := h.cons w hw
   simp only [Sys.withG_g, Sys.withG_flow, Ghost.out, h1, h2, h3, h4] at this ⊢
   exact this
 
 theorem Step.register {s s1 : Sys} (t : Nat) (hreg : s.register t = some s1) : Step s s1 := by
   obtain ⟨_, g1, c1⟩ := Sys.register_flow (fun _ => 0) s s1 t hreg
   refine ⟨fun h => ⟨?_, ?_, Sys.register_wf s s1 t hreg h.wf, by rw [g1]; exact h.lost⟩, c1, by rw [g1], by rw [g1], by rw [g1]⟩
-  · intro w
+  · intro w hw
     rw [(Sys.register_flow w s s1 t hreg).1, g1]
-    exact h.cons w
+    exact h.cons w hw
   · rcases Sys.register_some s s1 t hreg with rfl | ⟨r, c, rfl⟩
     · exact h.sig
     · intro e he
@@ -205,12 +205,12 @@ theorem ChanInv.afterSend {s1 : Sys} (h : ChanInv s1) (t : Nat) (r r' : Ring Cmd
     (hl : g'.lostAtExit = s1.g.lostAtExit) (hsig : ∀ c ∈ th'.pending, c.isSignal = true) :
     ChanInv (((s1.setRing t r').setTh t th').withG g') := by
   refine ⟨?_, ?_, ?_, ?_⟩
-  · intro w
+  · intro w hw
     have e1 := hflow w
     have e2 := Sys.setRing_flow w s1 t r r' hring
     have e3 := Sys.setTh_flow w (s1.setRing t r') t th'
     rw [Sys.setRing_th] at e3
-    have e4 := h.cons w
+    have e4 := h.cons w hw
     simp only [Sys.withG_g, Sys.withG_flow, Ghost.out, ha, hc, hd, hl, wsum_append] at e4 ⊢
     omega
   · intro e he
@@ -372,11 +372,11 @@ theorem Step.exitThread (s : Sys) (t : Nat) : Step s (s.exitThread t) := by
     | some r =>
       dsimp only
       refine ⟨fun h => ⟨?_, ?_, ?_, ?_⟩, ?_, rfl, rfl, rfl⟩
-      · intro w
+      · intro w hw
         have e1 := Ring.senderDrop_w w r (s1.th t).pending
         have e2 := Sys.setRing_flow w _ t r (r.senderDrop (s1.th t).pending) hring
         have e3 := Sys.setTh_flow w s1 t { s1.th t with guards := [], alive := false, pending := [] }
-        have e4 := h.cons w
+        have e4 := h.cons w hw
         simp only [Sys.withG_g, Sys.withG_flow, Ghost.out, wsum_append, Sys.setRing_g, Sys.setTh_g, wsum_nil] at e2 e3 e4 ⊢
         omega
       · intro e he
@@ -396,9 +396,9 @@ theorem Step.exitThread (s : Sys) (t : Nat) : Step s (s.exitThread t) := by
     | none =>
       dsimp only
       refine ⟨fun h => ⟨?_, ?_, ?_, ?_⟩, rfl, rfl, rfl, rfl⟩
-      · intro w
+      · intro w hw
         have e3 := Sys.setTh_flow w s1 t { s1.th t with guards := [], alive := false, pending := [] }
-        have e4 := h.cons w
+        have e4 := h.cons w hw
         simp only [Sys.withG_g, Sys.withG_flow, Ghost.out, wsum_append, Sys.setTh_g, wsum_nil] at e3 e4 ⊢
         omega
       · intro e he
@@ -415,9 +415,9 @@ theorem Step.exitThread (s : Sys) (t : Nat) : Step s (s.exitThread t) := by
         · exact h.lost c hc
   · -- never used the channel (its overflow list is empty, but the accounting does not need to know)
     refine ⟨fun h => ⟨?_, ?_, h.wf, ?_⟩, rfl, rfl, rfl, rfl⟩
-    · intro w
+    · intro w hw
       have e3 := Sys.setTh_flow w s1 t { s1.th t with guards := [], alive := false, pending := [] }
-      have e4 := h.cons w
+      have e4 := h.cons w hw
       simp only [Sys.withG_g, Sys.withG_flow, Ghost.out, wsum_append, Sys.setTh_g, wsum_nil] at e3 e4 ⊢
       omega
     · intro e he
